@@ -71,6 +71,33 @@ def templates():
     T["class:bases_keywords_no_meta"] = ("class IS:\n    def __init_subclass__(cls, **kw):\n        cls.kw = sorted(kw.items())\nclass A: pass\nclass C(probe(0, A), probe(1, IS), k1=probe(2, a), k2=probe(3, b)):\n    pass\nlog(C.kw)\n", AB, "True")
     T["def:decorators_defaults_order"] = ("def deco(tag):\n    def d(fn):\n        probe(30 + tag)\n        return fn\n    return d\n@probe(0, deco)(probe(1, 1))\n@probe(2, deco)(probe(3, 2))\ndef f(p=probe(4, a), *, q=probe(5, b)):\n    return (p, q)\nlog(f())\n", AB, "True")
     T["def:method_decorators_defaults"] = ("def deco(tag):\n    def d(fn):\n        probe(30 + tag)\n        return fn\n    return d\nclass K:\n    @probe(0, deco)(probe(1, 1))\n    @probe(2, deco)(probe(3, 2))\n    def m(self, p=probe(4, a)):\n        return p\nlog(K().m())\n", [("a", "int")], "True")
+    # --- methods with special names (the converter wraps some of them): header evaluated once
+    MD = "def deco(tag):\n    def d(fn):\n        probe(30 + tag)\n        return fn\n    return d\n"
+    for mname, params, use in (
+        ("m", "self", "K().m()"),
+        ("__init__", "self", "K().pv"),
+        ("__init_subclass__", "cls, **kw", "Sub.pv"),
+        ("__class_getitem__", "cls, item=None", "K[1]"),
+        ("__call__", "self", "K()()"),
+        ("__new__", "cls", "K.pv"),
+    ):
+        for dk, decos in (("plain", []), ("deco", ["@probe(0, deco)(probe(1, 1))"]), ("deco2", ["@probe(0, deco)(probe(1, 1))", "@probe(2, deco(2))"]), ("explicit_cm", ["@classmethod", "@probe(0, deco)(probe(1, 1))"])):
+            if dk == "explicit_cm" and mname not in ("__init_subclass__", "__class_getitem__"):
+                continue
+            if mname == "__new__":
+                body = ["        o = super().__new__(cls)", "        cls.pv = (p, q)", "        return o"]
+                use_lines = ["K()", "log(K.pv)"]
+            elif mname in ("__init__",):
+                body = ["        self.pv = (p, q)"]
+                use_lines = ["log(%s)" % use]
+            elif mname == "__init_subclass__":
+                body = ["        cls.pv = (p, q)"]
+                use_lines = ["class Sub(K): pass", "log(Sub.pv)"]
+            else:
+                body = ["        return (p, q)"]
+                use_lines = ["log(%s)" % use]
+            lines = ["class K:"] + ["    " + d for d in decos] + ["    def %s(%s, p=probe(5, a), *, q=probe(6, b)):" % (mname, params.replace(", **kw", "").replace(", item=None", ", item=None")) if "**kw" not in params else "    def %s(cls, p=probe(5, a), *, q=probe(6, b), **kw):" % mname] + body + use_lines
+            T["method:%s:%s" % (mname, dk)] = (MD + "\n".join(lines) + "\n", AB, "True")
     T["class:body_order"] = ("class C:\n    x = probe(0, a)\n    y = probe(1, x + 1)\n    def m(self, p=probe(2, y)):\n        return p\n    z = probe(3, b)\nlog(C.x, C.y, C().m(), C.z)\n", AB, "True")
     # --- headers
     T["if:elif"] = ("if probe(0, a > 0):\n    mark(0)\nelif probe(1, b > 0):\n    mark(1)\nelif probe(2, a == b):\n    mark(2)\nelse:\n    mark(3)\n", AB, "True")
